@@ -44,6 +44,7 @@ type gOp struct {
 	F      *gKey  `json:"f,omitempty"`
 	T      *gKey  `json:"t,omitempty"`
 	Kind   *int   `json:"kind,omitempty"` // edge kind; nil = all kinds (RemoveEdge)
+	Meta   int    `json:"meta,omitempty"` // AddEdge: the metadata argument; 0 = nil, 1 = {"note":"first"}, 2 = {"note":"second"}, 3 = {} (empty, non-nil)
 	Fields []gKey `json:"fields,omitempty"`
 	Vals   []gKey `json:"vals,omitempty"`
 	Ty     *gKey  `json:"ty,omitempty"`
@@ -51,20 +52,21 @@ type gOp struct {
 }
 
 type gObs struct {
-	Err    int       `json:"err"`    // 0 = op returned no error, 1 = error, 2 = panic
-	Nodes  [][4]int  `json:"nodes"`  // base, version of stored Id, node kind, node.Version (0 = nil)
-	Edges  [][]int   `json:"edges"`  // per base answer of GetEdges(key, nil): [base, n, (fb fv tb tv kind ord)*n]
-	Ch     [][]int   `json:"ch"`     // per existing base: [base, children bases...]
-	Pa     [][]int   `json:"pa"`     // per existing base: [base, parents bases...]
-	De     [][]int   `json:"de"`     // per existing base: [base, descendants bases...]
-	Fbk    [][]int   `json:"fbk"`    // per node kind with a non-empty answer: [kind, bases...]
-	Deps   [][3]int  `json:"deps"`   // dump: from base, to base, to version
-	Rev    [][3]int  `json:"rev"`    // dump: to base, from base, from version
-	Dump   bool      `json:"dump"`   // adjacency dump available
-	Filt   []gFRow   `json:"filt"`   // answers through an edge-kind filter (rows with a non-empty answer)
-	Flags  [6]bool   `json:"flags"`  // version-independent key queries; Exists == (Get != nil); kind-filtered GetEdges == filter of unfiltered; sorted Children/Parents return the nodes of the unsorted answers; [4] sorted Children/Parents (no filter and every filter, asc and desc) are ordered by the ordinals GetEdges lists; [5] node-kind-filtered Children/Parents == the plain answers restricted to that node kind
-	Nondet bool      `json:"nondet"` // a repetition of the same history gave a different observation
-	Msg    string    `json:"msg,omitempty"`
+	Err    int               `json:"err"`   // 0 = op returned no error, 1 = error, 2 = panic
+	Nodes  [][4]int          `json:"nodes"` // base, version of stored Id, node kind, node.Version (0 = nil)
+	Edges  [][]int           `json:"edges"` // per base answer of GetEdges(key, nil): [base, n, (fb fv tb tv kind ord)*n]
+	Ch     [][]int           `json:"ch"`    // per existing base: [base, children bases...]
+	Pa     [][]int           `json:"pa"`    // per existing base: [base, parents bases...]
+	De     [][]int           `json:"de"`    // per existing base: [base, descendants bases...]
+	Fbk    [][]int           `json:"fbk"`   // per node kind with a non-empty answer: [kind, bases...]
+	Deps   [][3]int          `json:"deps"`  // dump: from base, to base, to version
+	Rev    [][3]int          `json:"rev"`   // dump: to base, from base, from version
+	Dump   bool              `json:"dump"`  // adjacency dump available
+	Filt   []gFRow           `json:"filt"`  // answers through an edge-kind filter (rows with a non-empty answer)
+	metas  map[[4]int]string // edge incarnation (from base, kind, to base, ordinal) -> canonical metadata; "!" = listed with differing metadata
+	Flags  [7]bool           `json:"flags"`  // version-independent key queries; Exists == (Get != nil); kind-filtered GetEdges == filter of unfiltered; sorted Children/Parents return the nodes of the unsorted answers; [4] sorted Children/Parents (no filter and every filter, asc and desc) are ordered by the ordinals GetEdges lists; [5] node-kind-filtered Children/Parents == the plain answers restricted to that node kind; [6] edge metadata: an edge incarnation (from, kind, to, ordinal) keeps its metadata, a new one carries what its AddEdge gave (nil for the edges of the compound ops)
+	Nondet bool              `json:"nondet"` // a repetition of the same history gave a different observation
+	Msg    string            `json:"msg,omitempty"`
 }
 
 // gFRow: Children/Parents/Descendants of base B through the edge-kind filter Ks (kind numbers)
@@ -213,7 +215,7 @@ func (u *gUniverse) apply(g *symboldg.SymbolGraph, op gOp) (res int, msg string)
 	case "AddAlias":
 		_, err = g.AddAlias(symboldg.CreateAliasNode{Data: metadata.AliasMeta{SymNodeMeta: u.sym(*op.K, common.SymKindAlias)}})
 	case "AddEdge":
-		g.AddEdge(u.key(*op.F), u.key(*op.T), gEdgeKinds[*op.Kind], nil)
+		g.AddEdge(u.key(*op.F), u.key(*op.T), gEdgeKinds[*op.Kind], gMeta(op.Meta))
 	case "RemoveEdge":
 		var kp *symboldg.SymbolEdgeKind
 		if op.Kind != nil {
@@ -230,6 +232,45 @@ func (u *gUniverse) apply(g *symboldg.SymbolGraph, op gOp) (res int, msg string)
 		return 1, err.Error()
 	}
 	return 0, ""
+}
+
+// the metadata argument of AddEdge number m (a fresh map on every call)
+func gMeta(m int) map[string]string {
+	switch m {
+	case 1:
+		return map[string]string{"note": "first"}
+	case 2:
+		return map[string]string{"note": "second"}
+	case 3:
+		return map[string]string{}
+	}
+	return nil
+}
+
+// canonical text of an edge's metadata (nil and the empty map are both "")
+func gMetaString(m map[string]string) string {
+	ks := make([]string, 0, len(m))
+	for k := range m {
+		ks = append(ks, k)
+	}
+	sort.Strings(ks)
+	out := ""
+	for _, k := range ks {
+		out += fmt.Sprintf("%q=%q;", k, m[k])
+	}
+	return out
+}
+
+func (u *gUniverse) noteMetas(o *gObs, m map[string]symboldg.SymbolEdgeDescriptor) {
+	for _, d := range m {
+		f, t := u.unkey(d.Edge.From), u.unkey(d.Edge.To)
+		k := [4]int{f[0], gEdgeKindNum(d.Edge.Kind), t[0], int(d.Ordinal)}
+		ms := gMetaString(d.Edge.Metadata)
+		if old, ok := o.metas[k]; ok && old != ms {
+			ms = "!"
+		}
+		o.metas[k] = ms
+	}
 }
 
 func gEdgeKindNum(k symboldg.SymbolEdgeKind) int {
@@ -319,7 +360,7 @@ func (u *gUniverse) adjList(m map[string]map[graphs.SymbolKey]struct{}) [][3]int
 
 func (u *gUniverse) observe(g *symboldg.SymbolGraph) gObs {
 	o := gObs{Nodes: [][4]int{}, Edges: [][]int{}, Ch: [][]int{}, Pa: [][]int{}, De: [][]int{}, Fbk: [][]int{}, Filt: []gFRow{},
-		Flags: [6]bool{true, true, true, true, true, true}}
+		Flags: [7]bool{true, true, true, true, true, true, true}, metas: map[[4]int]string{}}
 	asc := &symboldg.TraversalBehavior{Sorting: symboldg.TraversalSortingOrdinalAsc}
 	for b := 0; b < gNBases; b++ {
 		vers := []int{0}
@@ -334,7 +375,9 @@ func (u *gUniverse) observe(g *symboldg.SymbolGraph) gObs {
 			if g.Exists(key) != (node != nil) {
 				o.Flags[1] = false
 			}
-			el := u.edgeList(g.GetEdges(key, nil))
+			all := g.GetEdges(key, nil)
+			u.noteMetas(&o, all)
+			el := u.edgeList(all)
 			if i == 0 {
 				first, firstNode = el, node
 			} else if !reflect.DeepEqual(first, el) || firstNode != node {
@@ -507,9 +550,23 @@ func (u *gUniverse) observeFiltered(g *symboldg.SymbolGraph, o *gObs, b int, nod
 func (u *gUniverse) runHistory(h []gOp) []gObs {
 	g := symboldg.NewSymbolGraph()
 	out := make([]gObs, 0, len(h))
+	prev := map[[4]int]string{}
 	for _, op := range h {
 		res, msg := u.apply(&g, op)
 		o := u.observe(&g)
+		for k, m := range o.metas {
+			want, known := prev[k]
+			if !known {
+				want = ""
+				if op.Op == "AddEdge" && op.Kind != nil && k[0] == op.F[0] && k[1] == *op.Kind && k[2] == op.T[0] {
+					want = gMetaString(gMeta(op.Meta))
+				}
+			}
+			if m != want {
+				o.Flags[6] = false
+			}
+		}
+		prev = o.metas
 		o.Err, o.Msg = res, o.Msg+msg
 		out = append(out, o)
 	}
